@@ -191,4 +191,291 @@ theorem pe_opt_strans (k : EK) (f : Nat) (b : B) (o : Option Strans) (nx : Rec) 
       simp <;> omega
 
 
+/-- number of parse steps of the middle part (STRANS with MAG/ANGLE is one step) -/
+def midSteps : Elem → Nat
+  | .boundary .. | .node .. | .box .. => 3
+  | .path _ _ _ width pt be ee _ =>
+    2 + (optRec rPathType int1 pt).length + (optRec rWidth int1 width).length + (optRec rBeginExtn int1 be).length
+      + (optRec rEndExtn int1 ee).length + 1
+  | .sref _ _ st _ => 1 + (if st.isSome then 1 else 0) + 1
+  | .aref _ _ _ _ st _ => 1 + (if st.isSome then 1 else 0) + 2
+  | .text _ _ _ _ pres pt width st _ =>
+    2 + (optRec rPresentation (fun (e : Nat × Nat) => Payload.bits e.1 e.2) pres).length + (optRec rPathType int1 pt).length
+      + (optRec rWidth int1 width).length + (if st.isSome then 1 else 0) + 2
+
+theorem parse_mid_boundary (layer dt : Int) (xy : List Int) (ef : Option (Nat × Nat)) (pl : Option Int) (ps : List Property)
+    (rest : List Rec) (h : xyOk .boundary xy = true) (g : Nat) (hg : ps.length + 1 ≤ g) :
+    parseElem .boundary (g + 3) { elflags := ef, plex := pl }
+      (⟨rLayer, int1 layer⟩ :: ⟨rDataType, int1 dt⟩ :: ⟨rXy, .ints xy⟩ :: (propRecs ps ++ ⟨17, .none⟩ :: rest)) =
+      .ok (.boundary layer dt xy ⟨ef, pl, ps⟩, rest) := by
+  rw [show g + 3 = (g + 2) + 1 from rfl, pe_layer _ _ _ _ _ rfl]
+  dsimp only
+  rw [show g + 2 = (g + 1) + 1 from rfl, pe_xtype _ _ _ _ _ rDataType rfl (by simp)]
+  dsimp only
+  rw [pe_xy _ _ _ _ _ h]
+  dsimp only
+  rw [parseElem_props _ _ _ _ _ hg]
+  simp [build]
+
+theorem parse_mid_node (layer dt : Int) (xy : List Int) (ef : Option (Nat × Nat)) (pl : Option Int) (ps : List Property)
+    (rest : List Rec) (h : xyOk .node xy = true) (g : Nat) (hg : ps.length + 1 ≤ g) :
+    parseElem .node (g + 3) { elflags := ef, plex := pl }
+      (⟨rLayer, int1 layer⟩ :: ⟨rNodetype, int1 dt⟩ :: ⟨rXy, .ints xy⟩ :: (propRecs ps ++ ⟨17, .none⟩ :: rest)) =
+      .ok (.node layer dt xy ⟨ef, pl, ps⟩, rest) := by
+  rw [show g + 3 = (g + 2) + 1 from rfl, pe_layer _ _ _ _ _ rfl]
+  dsimp only
+  rw [show g + 2 = (g + 1) + 1 from rfl, pe_xtype _ _ _ _ _ rNodetype rfl (by simp)]
+  dsimp only
+  rw [pe_xy _ _ _ _ _ h]
+  dsimp only
+  rw [parseElem_props _ _ _ _ _ hg]
+  simp [build]
+
+theorem parse_mid_box (layer dt : Int) (xy : List Int) (ef : Option (Nat × Nat)) (pl : Option Int) (ps : List Property)
+    (rest : List Rec) (h : xyOk .box xy = true) (g : Nat) (hg : ps.length + 1 ≤ g) :
+    parseElem .box (g + 3) { elflags := ef, plex := pl }
+      (⟨rLayer, int1 layer⟩ :: ⟨rBoxType, int1 dt⟩ :: ⟨rXy, .ints xy⟩ :: (propRecs ps ++ ⟨17, .none⟩ :: rest)) =
+      .ok (.box layer dt xy ⟨ef, pl, ps⟩, rest) := by
+  rw [show g + 3 = (g + 2) + 1 from rfl, pe_layer _ _ _ _ _ rfl]
+  dsimp only
+  rw [show g + 2 = (g + 1) + 1 from rfl, pe_xtype _ _ _ _ _ rBoxType rfl (by simp)]
+  dsimp only
+  rw [pe_xy _ _ _ _ _ h]
+  dsimp only
+  rw [parseElem_props _ _ _ _ _ hg]
+  simp [build]
+
+theorem parse_mid_path (layer dt : Int) (xy : List Int) (width pt be ee : Option Int) (ef : Option (Nat × Nat)) (pl : Option Int)
+    (ps : List Property) (rest : List Rec) (h : xyOk .path xy = true) (g : Nat) (hg : ps.length + 1 ≤ g) :
+    parseElem .path (((((((g + 1) + (optRec rEndExtn int1 ee).length) + (optRec rBeginExtn int1 be).length) + (optRec rWidth int1 width).length)
+          + (optRec rPathType int1 pt).length) + 1) + 1) { elflags := ef, plex := pl }
+      (⟨rLayer, int1 layer⟩ :: ⟨rDataType, int1 dt⟩ :: (optRec rPathType int1 pt ++ (optRec rWidth int1 width ++ (optRec rBeginExtn int1 be ++
+        (optRec rEndExtn int1 ee ++ ⟨rXy, .ints xy⟩ :: (propRecs ps ++ ⟨17, .none⟩ :: rest)))))) =
+      .ok (.path layer dt xy width pt be ee ⟨ef, pl, ps⟩, rest) := by
+  rw [pe_layer _ _ _ _ _ rfl]
+  dsimp only
+  rw [pe_xtype _ _ _ _ _ rDataType rfl (by simp)]
+  dsimp only
+  rw [pe_opt_pathtype _ _ _ _ _ rfl rfl]
+  dsimp only
+  rw [pe_opt_width _ _ _ _ _ rfl rfl]
+  dsimp only
+  rw [pe_opt_bgn _ _ _ _ rfl]
+  dsimp only
+  rw [pe_opt_end _ _ _ _ rfl]
+  dsimp only
+  rw [pe_xy _ _ _ _ _ h]
+  dsimp only
+  rw [parseElem_props _ _ _ _ _ hg]
+  simp [build]
+
+theorem parse_mid_sref (name : Bytes) (xy : List Int) (st : Option Strans) (ef : Option (Nat × Nat)) (pl : Option Int)
+    (ps : List Property) (rest : List Rec) (h : xyOk .sref xy = true) (g : Nat) (hg : ps.length + 1 ≤ g) :
+    parseElem .sref (((g + 1) + (if st.isSome then 1 else 0)) + 1) { elflags := ef, plex := pl }
+      (⟨rStructRefName, .str name⟩ :: (optStrans st ++ ⟨rXy, .ints xy⟩ :: (propRecs ps ++ ⟨17, .none⟩ :: rest))) =
+      .ok (.sref name xy st ⟨ef, pl, ps⟩, rest) := by
+  rw [pe_name _ _ _ _ _ rfl]
+  dsimp only
+  rw [pe_opt_strans _ _ _ _ _ _ rfl rfl (by simp [rXy])]
+  dsimp only
+  rw [pe_xy _ _ _ _ _ h]
+  dsimp only
+  rw [parseElem_props _ _ _ _ _ hg]
+  simp [build]
+
+theorem parse_mid_aref (name : Bytes) (xy : List Int) (cols rows : Int) (st : Option Strans) (ef : Option (Nat × Nat)) (pl : Option Int)
+    (ps : List Property) (rest : List Rec) (h : xyOk .aref xy = true) (g : Nat) (hg : ps.length + 1 ≤ g) :
+    parseElem .aref ((((g + 1) + 1) + (if st.isSome then 1 else 0)) + 1) { elflags := ef, plex := pl }
+      (⟨rStructRefName, .str name⟩ :: (optStrans st ++ ⟨rColRow, .ints [cols, rows]⟩ :: ⟨rXy, .ints xy⟩ :: (propRecs ps ++ ⟨17, .none⟩ :: rest))) =
+      .ok (.aref name xy cols rows st ⟨ef, pl, ps⟩, rest) := by
+  rw [pe_name _ _ _ _ _ rfl]
+  dsimp only
+  rw [pe_opt_strans _ _ _ _ _ _ rfl rfl (by simp [rColRow])]
+  dsimp only
+  rw [pe_colrow]
+  dsimp only
+  rw [pe_xy _ _ _ _ _ h]
+  dsimp only
+  rw [parseElem_props _ _ _ _ _ hg]
+  simp [build]
+
+theorem parse_mid_text (str : Bytes) (layer tt : Int) (xy : List Int) (pres : Option (Nat × Nat)) (pt width : Option Int)
+    (st : Option Strans) (ef : Option (Nat × Nat)) (pl : Option Int)
+    (ps : List Property) (rest : List Rec) (h : xyOk .text xy = true) (g : Nat) (hg : ps.length + 1 ≤ g) :
+    parseElem .text ((((((((g + 1) + 1) + (if st.isSome then 1 else 0)) + (optRec rWidth int1 width).length) + (optRec rPathType int1 pt).length)
+          + (optRec rPresentation (fun (e : Nat × Nat) => Payload.bits e.1 e.2) pres).length) + 1) + 1) { elflags := ef, plex := pl }
+      (⟨rLayer, int1 layer⟩ :: ⟨rTextType, int1 tt⟩ :: (optRec rPresentation (fun (e : Nat × Nat) => Payload.bits e.1 e.2) pres ++
+        (optRec rPathType int1 pt ++ (optRec rWidth int1 width ++ (optStrans st ++ ⟨rXy, .ints xy⟩ :: ⟨rString, .str str⟩ ::
+          (propRecs ps ++ ⟨17, .none⟩ :: rest)))))) =
+      .ok (.text str layer tt xy pres pt width st ⟨ef, pl, ps⟩, rest) := by
+  rw [pe_layer _ _ _ _ _ rfl]
+  dsimp only
+  rw [pe_xtype _ _ _ _ _ rTextType rfl (by simp)]
+  dsimp only
+  rw [pe_opt_pres _ _ _ _ rfl]
+  dsimp only
+  rw [pe_opt_pathtype _ _ _ _ _ rfl rfl]
+  dsimp only
+  rw [pe_opt_width _ _ _ _ _ rfl rfl]
+  dsimp only
+  rw [pe_opt_strans _ _ _ _ _ _ rfl rfl (by simp [rXy])]
+  dsimp only
+  rw [pe_xy _ _ _ _ _ h]
+  dsimp only
+  rw [pe_string]
+  dsimp only
+  rw [parseElem_props _ _ _ _ _ hg]
+  simp [build]
+
+/-- the records of an element after its header record -/
+def tailRecs (e : Elem) : List Rec :=
+  commonHead (elemCommon e) ++ (elemMid e ++ (propRecs (elemCommon e).props ++ [⟨17, .none⟩]))
+
+theorem elemRecs_cons (e : Elem) : elemRecs e = headerRec e :: tailRecs e := by
+  rw [elemRecs_eq]; rfl
+
+theorem midSteps_le (e : Elem) : midSteps e ≤ (elemMid e).length := by
+  cases e <;> simp only [midSteps, elemMid, List.length_append, List.length_cons, List.length_nil] <;> try omega
+  all_goals (rename_i st _; cases st <;> simp [optStrans, stransRecs] <;> omega)
+
+/-- with exactly enough fuel, the records after the header parse back to the element -/
+theorem parse_tail_exact (e : Elem) (rest : List Rec) (h : elemOk e = true) :
+    parseElem (kindOf e) (((elemCommon e).props.length + 1 + midSteps e) + (commonHead (elemCommon e)).length) {}
+      (tailRecs e ++ rest) = .ok (e, rest) := by
+  unfold tailRecs
+  rw [List.append_assoc, parse_common, List.append_assoc, List.append_assoc, List.singleton_append]
+  cases e with
+  | boundary layer dt xy c => obtain ⟨ef, pl, ps⟩ := c; exact parse_mid_boundary layer dt xy ef pl ps rest h _ (Nat.le_refl _)
+  | node layer dt xy c => obtain ⟨ef, pl, ps⟩ := c; exact parse_mid_node layer dt xy ef pl ps rest h _ (Nat.le_refl _)
+  | box layer dt xy c => obtain ⟨ef, pl, ps⟩ := c; exact parse_mid_box layer dt xy ef pl ps rest h _ (Nat.le_refl _)
+  | path layer dt xy width pt be ee c =>
+    obtain ⟨ef, pl, ps⟩ := c
+    have := parse_mid_path layer dt xy width pt be ee ef pl ps rest h _ (Nat.le_refl (ps.length + 1))
+    simp only [elemMid, elemCommon, kindOf, midSteps, List.cons_append, List.nil_append, List.append_assoc] at this ⊢
+    rw [show ps.length + 1 + (2 + (optRec rPathType int1 pt).length + (optRec rWidth int1 width).length + (optRec rBeginExtn int1 be).length
+        + (optRec rEndExtn int1 ee).length + 1) =
+        ((((((ps.length + 1 + 1) + (optRec rEndExtn int1 ee).length) + (optRec rBeginExtn int1 be).length) + (optRec rWidth int1 width).length)
+          + (optRec rPathType int1 pt).length) + 1) + 1 by omega]
+    exact this
+  | sref name xy st c =>
+    obtain ⟨ef, pl, ps⟩ := c
+    have := parse_mid_sref name xy st ef pl ps rest h _ (Nat.le_refl (ps.length + 1))
+    simp only [elemMid, elemCommon, kindOf, midSteps, List.cons_append, List.nil_append, List.append_assoc] at this ⊢
+    rw [show ps.length + 1 + (1 + (if st.isSome then 1 else 0) + 1) = ((ps.length + 1 + 1) + (if st.isSome then 1 else 0)) + 1 by omega]
+    exact this
+  | aref name xy cols rows st c =>
+    obtain ⟨ef, pl, ps⟩ := c
+    have := parse_mid_aref name xy cols rows st ef pl ps rest h _ (Nat.le_refl (ps.length + 1))
+    simp only [elemMid, elemCommon, kindOf, midSteps, List.cons_append, List.nil_append, List.append_assoc] at this ⊢
+    rw [show ps.length + 1 + (1 + (if st.isSome then 1 else 0) + 2) = (((ps.length + 1 + 1) + 1) + (if st.isSome then 1 else 0)) + 1 by omega]
+    exact this
+  | text str layer tt xy pres pt width st c =>
+    obtain ⟨ef, pl, ps⟩ := c
+    have := parse_mid_text str layer tt xy pres pt width st ef pl ps rest h _ (Nat.le_refl (ps.length + 1))
+    simp only [elemMid, elemCommon, kindOf, midSteps, List.cons_append, List.nil_append, List.append_assoc] at this ⊢
+    rw [show ps.length + 1 + (2 + (optRec rPresentation (fun (e : Nat × Nat) => Payload.bits e.1 e.2) pres).length + (optRec rPathType int1 pt).length
+        + (optRec rWidth int1 width).length + (if st.isSome then 1 else 0) + 2) =
+        (((((((ps.length + 1 + 1) + 1) + (if st.isSome then 1 else 0)) + (optRec rWidth int1 width).length) + (optRec rPathType int1 pt).length)
+          + (optRec rPresentation (fun (e : Nat × Nat) => Payload.bits e.1 e.2) pres).length) + 1) + 1 by omega]
+    exact this
+
+/-- with the fuel the struct parser actually passes -/
+theorem parse_tail (e : Elem) (rest : List Rec) (h : elemOk e = true) :
+    parseElem (kindOf e) ((tailRecs e ++ rest).length + 1) {} (tailRecs e ++ rest) = .ok (e, rest) := by
+  refine parseElem_mono _ _ _ _ _ (parse_tail_exact e rest h) _ ?_
+  have := midSteps_le e
+  simp only [tailRecs, List.length_append, List.length_cons, List.length_nil, propRecs_length]
+  omega
+
+theorem elemKind_header (e : Elem) : elemKind (headerRec e).rt = some (kindOf e) ∧
+    ¬ ((headerRec e).rt = rEndStruct ∧ (headerRec e).pl = .none) := by
+  cases e <;> simp [headerRec, elemKind, kindOf, rBoundary, rPath, rStructRef, rArrayRef, rText, rNode, rBox, rEndStruct]
+
+/-- `parse_struct`'s element loop reads back every element the writer emitted, in order -/
+theorem parseElems_all : ∀ (es : List Elem) (acc : List Elem) (rest : List Rec) (f : Nat), es.length + 1 ≤ f →
+    (∀ e ∈ es, elemOk e = true) →
+    parseElems f acc (es.flatMap elemRecs ++ ⟨rEndStruct, .none⟩ :: rest) = .ok (acc ++ es, rest) := by
+  intro es
+  induction es with
+  | nil =>
+    intro acc rest f hf _
+    obtain ⟨g, rfl⟩ : ∃ g, f = g + 1 := ⟨f - 1, by simp at hf; omega⟩
+    simp [parseElems, rEndStruct]
+  | cons e r ih =>
+    intro acc rest f hf hok
+    obtain ⟨g, rfl⟩ : ∃ g, f = g + 1 := ⟨f - 1, by simp at hf; omega⟩
+    have he := hok e (by simp)
+    obtain ⟨hk, hne⟩ := elemKind_header e
+    simp only [List.flatMap_cons, elemRecs_cons, List.cons_append, List.append_assoc]
+    rw [parseElems]
+    simp only [hne, if_false, hk]
+    have pt := parse_tail e (r.flatMap elemRecs ++ ⟨rEndStruct, .none⟩ :: rest) he
+    rw [pt]
+    simp only [List.length_append, List.length_cons]
+    rw [if_pos (by omega)]
+    have := ih (acc ++ [e]) rest g (by simp at hf; omega) (fun x hx => hok x (by simp [hx]))
+    simpa [List.append_assoc] using this
+
+def structOk (s : Struct) : Bool := s.elems.all elemOk
+def libOk (l : Library) : Bool := l.structs.all structOk
+
+theorem flatMap_elemRecs_length (es : List Elem) : es.length ≤ (es.flatMap elemRecs).length := by
+  induction es with
+  | nil => simp
+  | cons e r ih => simp only [List.flatMap_cons, List.length_append, List.length_cons, elemRecs_cons]; omega
+
+theorem parseLibBody_structs (v : Int) (d : List Int) (t : List Rec) : ∀ (ss : List Struct) (lb : LB) (f : Nat),
+    ss.length + 1 ≤ f → (∀ s ∈ ss, structOk s = true) →
+    parseLibBody v d f lb (ss.flatMap structRecs ++ ⟨rEndLib, .none⟩ :: t) =
+      (match lb.name, lb.units with
+       | some n, some u => .ok ⟨n, v, d, u, lb.structs ++ ss⟩
+       | _, _ => .err) := by
+  intro ss
+  induction ss with
+  | nil =>
+    intro lb f hf _
+    obtain ⟨g, rfl⟩ : ∃ g, f = g + 1 := ⟨f - 1, by simp at hf; omega⟩
+    simp [parseLibBody, rEndLib]
+    rfl
+  | cons s r ih =>
+    intro lb f hf hok
+    obtain ⟨g, rfl⟩ : ∃ g, f = g + 1 := ⟨f - 1, by simp at hf; omega⟩
+    have hs := hok s (by simp)
+    simp only [structOk, List.all_eq_true] at hs
+    simp only [List.flatMap_cons, structRecs, List.cons_append, List.nil_append, List.append_assoc, rBgnStruct, rStructName]
+    rw [parseLibBody]
+    have pe := parseElems_all s.elems [] (r.flatMap structRecs ++ ⟨rEndLib, .none⟩ :: t)
+      ((s.elems.flatMap elemRecs ++ ⟨rEndStruct, .none⟩ :: (r.flatMap structRecs ++ ⟨rEndLib, .none⟩ :: t)).length + 1)
+      (by have := flatMap_elemRecs_length s.elems; simp only [List.length_append, List.length_cons]; omega) hs
+    simp only [List.nil_append] at pe
+    rw [pe]
+    simp only [List.length_append, List.length_cons]
+    rw [if_pos (by omega)]
+    have := ih { lb with structs := lb.structs ++ [⟨s.name, s.dates, s.elems⟩] } g (by simp at hf; omega)
+      (fun x hx => hok x (by simp [hx]))
+    rw [this]
+    cases s
+    cases hn : lb.name <;> cases hu : lb.units <;> simp [List.append_assoc]
+
+/-- TREE-LEVEL ROUND TRIP: the reader's record state machine applied to the records the writer
+    emits returns the library — for every library whose elements have coordinate lists of the shape
+    their kind demands. -/
+theorem parseLib_libRecs (l : Library) (h : libOk l = true) : parseLib (libRecs l) = .ok l := by
+  obtain ⟨name, version, dates, units, structs⟩ := l
+  simp only [libOk, List.all_eq_true] at h
+  have hlen : structs.length ≤ (structs.flatMap structRecs).length := by
+    clear h
+    induction structs with
+    | nil => simp
+    | cons s r ih => simp only [List.flatMap_cons, List.length_append, structRecs, List.length_cons]; omega
+  simp only [libRecs, List.cons_append, List.nil_append, parseLib, rHeader, rBgnLib, int1, rLibName, rUnits]
+  generalize hF : (⟨2, Payload.str name⟩ :: ⟨3, Payload.reals [units.1, units.2]⟩ ::
+      (structs.flatMap structRecs ++ [⟨rEndLib, Payload.none⟩]) : List Rec).length + 1 = F
+  simp only [List.length_cons, List.length_append, List.length_nil] at hF
+  obtain ⟨g, rfl⟩ : ∃ g, F = (g + 1) + 1 := ⟨F - 2, by omega⟩
+  rw [parseLibBody, parseLibBody]
+  have := parseLibBody_structs version dates [] structs { name := some name, units := some units } g
+    (by omega) (fun s hs => h s hs)
+  simpa using this
+
 end L21.Gds
